@@ -3,6 +3,7 @@ package rules
 import (
 	"fmt"
 	"go/token"
+	"go/types"
 	"sort"
 	"strings"
 
@@ -61,7 +62,7 @@ func C09(c *Ctx) {
 	r.Rule("R09.7", "indexes and head move together: every index entry of a block (tx meta, block hash / height / tx set) and the chain meta are written through the one batch that PersistExecutionResult / RollbackBlockChain commit; no function on that path writes to the chain store directly.")
 	c.chainBatchDiscipline("R09.7")
 	r.Rule("R09.6", "no stale chain meta: a value read from the old chain meta (height, hash, interchain count) that is stored into the chain meta a function persists / installs (persistChainMeta, UpdateChainMeta) is read after the last update of that field on the path - a copy taken before the removal loop of a rollback misses the loop's subtractions.")
-	r.Rule("R09.5", "interchain count: persisting and rolling back adjust InterchainTxCount by the same function of InterchainMeta.Counter (sum of len(Slice)).")
+	r.Rule("R09.5", "interchain count: persisting and rolling back adjust InterchainTxCount by the same function of InterchainMeta.Counter: the sum of len(Slice), every addition into the running count being executed for every element (an increment behind a test of the element counts a subset, and the two sides drift apart).")
 	r.NotDecided = append(r.NotDecided, "blockfile internals (pinned dependency); value-level equality of stored and recomputed roots")
 
 	cha := core.NewCHA(c.P)
@@ -327,7 +328,71 @@ func C09(c *Ctx) {
 					}
 				}
 			}
-			return hasCounter && hasLen
+			if !(hasCounter && hasLen) {
+				return false
+			}
+			// every index counts: each addition into the running count adds len(Slice) or 1, and is executed on
+			// every iteration of its loop (an increment behind a test of the element - e.g. idx.Valid - counts a subset)
+			var headers []*ssa.BasicBlock
+			for _, b := range fn.Blocks {
+				for _, in := range b.Instrs {
+					if nx, ok := in.(*ssa.Next); ok {
+						if rg, ok := nx.Iter.(*ssa.Range); ok && core.Mentions(rg.X, fieldNamed("Counter")) {
+							headers = append(headers, nx.Block())
+						}
+					}
+				}
+			}
+			inCounterLoop := func(b *ssa.BasicBlock) bool {
+				for _, h := range headers {
+					if blockReach(h, b) && blockReach(b, h) {
+						return true
+					}
+				}
+				return false
+			}
+			for _, b := range fn.Blocks {
+				if !inCounterLoop(b) {
+					continue
+				}
+				for _, in := range b.Instrs {
+					bo, ok := in.(*ssa.BinOp)
+					if !ok || bo.Op != token.ADD {
+						continue
+					}
+					if bt, isB := bo.Type().Underlying().(*types.Basic); !isB || bt.Kind() != types.Uint64 {
+						continue
+					}
+					_, xPhi := bo.X.(*ssa.Phi)
+					_, yPhi := bo.Y.(*ssa.Phi)
+					if !xPhi && !yPhi {
+						continue
+					}
+					term := bo.Y
+					if yPhi && !xPhi {
+						term = bo.X
+					}
+					okTerm := false
+					if k, isC := core.ConstInt(term); isC && k == 1 {
+						okTerm = true
+					}
+					if core.Mentions(term, func(v ssa.Value) bool {
+						cc, ok := v.(*ssa.Call)
+						if !ok {
+							return false
+						}
+						bn, ok := cc.Call.Value.(*ssa.Builtin)
+						return ok && bn.Name() == "len" && core.Mentions(cc.Call.Args[0], fieldLoad("VerifiedIndexSlice", "Slice"))
+					}) {
+						okTerm = true
+					}
+					// loop counters of `for i := range` are additions too: they add 1 to an int, not uint64 - filtered above
+					if !okTerm || !unconditionalInLoop(fn, bo) {
+						return false
+					}
+				}
+			}
+			return true
 		}
 		c.staleMetaReads()
 		r.Check(shape(persist) && shape(gic), "R09.5", "interchain count: persist and rollback use sum(len(Counter[k].Slice))", c.P.Pos(persist.Pos()), "both sides sum len(Slice) over InterchainMeta.Counter", "persist and rollback do not compute the interchain count the same way")
